@@ -71,6 +71,11 @@ func c19Programs() []c19Prog {
 		{"import-both", map[string]string{"main.tsh": "import (\n\t\"strings\"\n\tl \"sub/lib.tsh\"\n)\n\nprint(strings.HasPrefix(\"ab\", \"a\"), l.Get())\n", "sub/lib.tsh": lib}, true},
 		{"empty", map[string]string{"main.tsh": ""}, true},
 		{"comment-only", map[string]string{"main.tsh": "// nothing here\n"}, true},
+		{"bytes-crlf-literal", map[string]string{"main.tsh": "print(\"one\\r\\ntwo\")\ns := \"a\\r\\nb\\r\\n\"\nprint(len(s), s)\n"}, true},
+		{"bytes-cr-tab-literal", map[string]string{"main.tsh": "print(\"a\\rb\\tc \")\nprint(\"trailing blanks   \")\nprint(\"\\n\\n\")\n"}, true},
+		{"bytes-crlf-source", map[string]string{"main.tsh": "x := 1\r\nprint(x, \"a\\r\\nb\")\r\nif x == 1 {\r\n\tprint(`raw\r\nline`)\r\n}\r\n"}, true},
+		{"bytes-no-final-newline", map[string]string{"main.tsh": "print(\"end\")"}, true},
+		{"bytes-non-ascii", map[string]string{"main.tsh": "print(\"h\u00e9llo \u2713 \\u00e9\")\n"}, true},
 		{"fail-lexical", map[string]string{"main.tsh": "print(\"unterminated)\n"}, false},
 		{"fail-syntax", map[string]string{"main.tsh": "if true {\n\tprint(1)\n"}, false},
 		{"fail-type", map[string]string{"main.tsh": "x := 1 + \"a\"\n"}, false},
@@ -78,6 +83,10 @@ func c19Programs() []c19Prog {
 		{"fail-conversion", map[string]string{"main.tsh": "print(1)\nb := \"a\" < \"b\"\nprint(b)\n"}, false},
 		{"fail-missing-import", map[string]string{"main.tsh": "import m \"missing.tsh\"\n\nprint(1)\n"}, false},
 		{"fail-import-cycle", map[string]string{"main.tsh": "import m \"main.tsh\"\n\nprint(1)\n"}, false},
+		{"fail-conversion-in-else", map[string]string{"main.tsh": "x := 1\nif x == 2 {\n\tprint(1)\n} else {\n\tb := \"a\" < \"b\"\n\tprint(b)\n}\n"}, false},
+		{"fail-conversion-in-default", map[string]string{"main.tsh": "x := 1\nswitch x {\ncase 2:\n\tprint(2)\ndefault:\n\tprint(\"a\" < \"b\")\n}\n"}, false},
+		{"fail-conversion-in-function", map[string]string{"main.tsh": "print(1)\nfunc f() bool {\n\treturn \"a\" > \"b\"\n}\nprint(f())\n"}, false},
+		{"fail-conversion-in-import", map[string]string{"main.tsh": "import l \"lib.tsh\"\n\nprint(l.Less())\n", "lib.tsh": "func Less() bool {\n\treturn \"a\" <= \"b\"\n}\n"}, false},
 		{"fail-late", map[string]string{"main.tsh": "print(1)\nprint(2)\nfunc f() int {\n\treturn \"s\"\n}\n"}, false},
 	}
 }
@@ -105,15 +114,15 @@ func extOf(t string) string {
 }
 
 func checkC19(c *Check) {
-	c.Rule = "the built tsh binary is run as a process on generated command lines: all orders of -i/-o/-t pairs with short and long spellings, target lists {bash}, {batch}, {bash,batch}, {batch,bash}, {bash,bash}, {bash,batch,bash}, input names (a.tsh, a.b.tsh, noext, .tsh, 'my prog.tsh', dir/sub/a.tsh; relative and absolute), output directories (., relative, absolute, with blank; with stale outputs and bystander files named like temporaries), inputs lying in the output directory under temporary-looking names, 10 accepted and 8 rejected programs, bad options, and fault configurations (output path is a directory; strace-injected EACCES on open / ENOSPC on write of the output file); oracle = exit status + recursive before/after stamps (size, mode, mtime, SHA-256) of the work directory + the library's output for the same file and target computed in the harness. Non-trivial = every process run; distinct = command line + program"
+	c.Rule = "the built tsh binary is run as a process on generated command lines: all orders of -i/-o/-t pairs with short and long spellings, target lists {bash}, {batch}, {bash,batch}, {batch,bash}, {bash,bash}, {bash,batch,bash}, input names (a.tsh, a.b.tsh, noext, .tsh, 'my prog.tsh', dir/sub/a.tsh; relative and absolute), output directories (., relative, absolute, with blank; with stale outputs and bystander files named like temporaries), inputs lying in the output directory under temporary-looking names, 15 accepted (five of them chosen for bytes that a text-mode rewrite would change: CR LF inside literals, CR, tabs, trailing blanks, CRLF source, no final newline, non-ASCII) and 12 rejected programs (conversion errors in else/default branches, functions and imported files among them), names beginning with a dash or spelled like a switch, bad options, and fault configurations (output path is a directory; strace-injected EACCES on open / ENOSPC on write of the output file); oracle = exit status + recursive before/after stamps (size, mode, mtime, SHA-256) of the work directory + the library's output for the same file and target computed in the harness. Non-trivial = every process run; distinct = command line + program"
 	c.Level = "fault_enumeration"
 	c.Assumptions = []string{"the library (fresh transpiler and converter) is the reference for the bytes", "files written for targets listed before a failing target are allowed to exist (the property speaks of the failing target)", "a trailing unpaired argument and repeated -i/-o are not asserted"}
 	progs := c19Programs()
 	cases := []c19Case{}
 	orders := []string{"iot", "ito", "oit", "oti", "tio", "toi"}
 	tsets := [][]string{{"bash"}, {"batch"}, {"bash", "batch"}, {"batch", "bash"}, {"bash", "bash"}, {"bash", "batch", "bash"}, {"batch", "batch"}}
-	names := []string{"a.tsh", "a.b.tsh", "noext", ".tsh", "my prog.tsh", "dir/sub/a.tsh", "UPPER.TSH", "a.tsh.bak"}
-	outs := []string{".", "out", "ABS:absout", "out dir/with blank", "dir/sub"}
+	names := []string{"a.tsh", "a.b.tsh", "noext", ".tsh", "my prog.tsh", "dir/sub/a.tsh", "UPPER.TSH", "a.tsh.bak", "-prog.tsh", "-", "--in", "-t", "a-b.tsh", "dir/sub/-x.tsh"}
+	outs := []string{".", "out", "ABS:absout", "out dir/with blank", "dir/sub", "-out", "--type"}
 	n := 0
 	for pi, p := range progs {
 		for ti, ts := range tsets {
@@ -137,6 +146,19 @@ func checkC19(c *Check) {
 	for _, p := range progs {
 		for _, ts := range tsets {
 			cases = append(cases, c19Case{key: fmt.Sprintf("plain/%s/t=%s", p.name, strings.Join(ts, "+")), prog: p, inputName: "main.tsh", outDir: "out", targets: ts, argOrder: "iot", stale: true})
+		}
+	}
+	// every input and output name once with the plain command line (always), and the names that look like switches in every option order
+	for ni, name := range names {
+		for di, od := range outs {
+			p := progs[(ni+di)%3]
+			for oi, ord := range orders {
+				dashy := strings.HasPrefix(filepath.Base(name), "-") || strings.HasPrefix(od, "-")
+				if oi > 0 && !(dashy && (ni+di+oi)%2 == 0) {
+					continue
+				}
+				cases = append(cases, c19Case{key: fmt.Sprintf("names/%s/order=%s/in=%s/out=%s", p.name, ord, hexKey(name), hexKey(od)), prog: p, inputName: name, outDir: od, targets: tsets[(ni+di)%4], argOrder: ord, long: (ni+oi)%2 == 1, stale: di%2 == 0})
+			}
 		}
 	}
 	// the input lies in the output directory and is named like a temporary or backup file
@@ -294,9 +316,9 @@ func c19Run(c *Check, cs c19Case, straceOK bool) {
 		sargs := []string{"-f", "-o", filepath.Join(work, ".strace.log")}
 		switch cs.strace {
 		case "openat-eacces":
-			sargs = append(sargs, "-P", first, "-e", "inject=openat:error=EACCES")
+			sargs = append(sargs, "-P", first, "-P", first+".0.tmp", "-P", first+".1.tmp", "-e", "inject=openat:error=EACCES")
 		case "write-enospc":
-			sargs = append(sargs, "-P", first, "-e", "inject=write:error=ENOSPC")
+			sargs = append(sargs, "-P", first, "-P", first+".0.tmp", "-P", first+".1.tmp", "-e", "inject=write:error=ENOSPC")
 		case "write-enospc-any":
 			sargs = append(sargs, "-e", "inject=write:error=ENOSPC")
 		case "rename-eacces":
